@@ -87,6 +87,7 @@ fn main() {
         frontier = next;
     }
     let mut pairs = 0u64;
+    let mut nontrivial = 0u64;
     let mut failures: Vec<(String, String)> = vec![];
     let mut shapes: HashSet<String> = HashSet::new();
     for (i, sa) in states.iter().enumerate() {
@@ -97,6 +98,7 @@ fn main() {
             if i == j { continue; }
             pairs += 1;
             let d = sa.diff(sb);
+            if d.len() >= 2 { nontrivial += 1; }
             let mut s = sa.clone();
             let mut rejected = None;
             for r in &d {
@@ -116,6 +118,6 @@ fn main() {
         }
     }
     let fjson: Vec<String> = failures.iter().map(|(i, o)| format!("{{\"input\": {i:?}, \"observed\": {o:?}}}")).collect();
-    println!("{{\"bound\": \"states reachable by <= {depth} dispatched requests over {} request templates (2 clusters, 2 backend ids x {} addresses, 3 http frontends, 2 listeners), capped at {cap} distinct states\", \"states\": {}, \"pairs\": {pairs}, \"failures\": [{}]}}",
+    println!("{{\"bound\": \"states reachable by <= {depth} dispatched requests over {} request templates (2 clusters, 2 backend ids x {} addresses, 3 http frontends, 2 listeners), capped at {cap} distinct states\", \"states\": {}, \"pairs\": {pairs}, \"nontrivial_pairs\": {nontrivial}, \"failures\": [{}]}}",
              u.len(), if thorough { 3 } else { 2 }, states.len(), fjson.join(", "));
 }
